@@ -60,9 +60,11 @@ class Outcome:
 
     def write_evidence(self):
         os.makedirs(EVIDENCE_DIR, exist_ok=True)
+        nknown = len(self.known_hits)
         cov = {
-            'obligations': self.obligations,
+            'obligations': self.obligations - nknown,
             'discharged': self.discharged,
+            'obligations_failing_as_listed_open_known_findings (not counted above)': nknown,
             'checker_cmd': ' ; '.join(self.checker_cmds) or 'n/a',
             'trusted_base': self.trusted,
             'samples': self.samples[:12],
